@@ -443,6 +443,58 @@ func genMeta(r *rng.R, d *doc) {
 	}
 }
 
+// directed documents (case indexes 0..nDirected-1 of every run): the minimal witnesses of the defects probed on
+// the unchanged tree, so that they are re-established whatever the seed
+const nDirected = 7
+
+func directed(i int) *doc {
+	d := &doc{subset: true, fams: []string{"directed"}}
+	pg := page{w: 100, h: 100}
+	rect := canvas.Rectangle(20, 10).Translate(5, 5)
+	grad := func(offs ...float64) canvas.Gradient {
+		g := canvas.NewLinearGradient(canvas.Point{X: 0, Y: 0}, canvas.Point{X: 30, Y: 0})
+		for k, o := range offs {
+			g.Stops.Add(o, color.RGBA{uint8(40 * k), 100, uint8(255 - 40*k), 255})
+		}
+		return g
+	}
+	switch i {
+	case 0: // literal strings: UTF-16BE of U+010D contains the byte 0x0D
+		d.meta = [6]string{"č", "", "", "", "", ""}
+	case 1: // Lang must hold the language
+		d.meta = [6]string{"", "", "", "", "canvas", "en"}
+	case 2: // gradient with three stops
+		st := canvas.DefaultStyle
+		st.Fill = canvas.Paint{Gradient: grad(0, 0.5, 1)}
+		pg.items = append(pg.items, item{kind: "path", path: rect, style: st, m: canvas.Identity, desc: "path{rect fill=linear[0 0.5 1]}"})
+	case 3: // four stops strictly inside (0,1): Bounds must list every stop offset
+		st := canvas.DefaultStyle
+		st.Fill = canvas.Paint{Gradient: grad(0.125, 0.25, 0.5, 0.75)}
+		pg.items = append(pg.items, item{kind: "path", path: rect, style: st, m: canvas.Identity, desc: "path{rect fill=linear[0.125 0.25 0.5 0.75]}"})
+	case 4: // two stops, the last one before 1
+		st := canvas.DefaultStyle
+		st.Fill = canvas.Paint{Gradient: grad(0, 0.75)}
+		pg.items = append(pg.items, item{kind: "path", path: rect, style: st, m: canvas.Identity, desc: "path{rect fill=linear[0 0.75]}"})
+	case 6: // known finding (root cause in Path.Dash/SplitAt, property C05/C09): dashing this arc panics; PDF calls
+		// Path.Dash when it has to draw the stroke explicitly (ArcsJoin is not a PDF join)
+		st := canvas.DefaultStyle
+		st.Stroke = canvas.Paint{Color: canvas.Black}
+		st.StrokeJoiner = canvas.ArcsJoin
+		st.Dashes = []float64{1, 0.5, 0.5}
+		p := canvas.MustParseSVGPath("M17.25 1C6.75 34 33.75 3.5 23.5 0L22 27.25A38.690853935884924 4.723883329381299 90 1 0 12.75 11.5")
+		pg.items = append(pg.items, item{kind: "path", path: p, style: st, m: canvas.Identity, desc: "path{" + p.String() + " fill=black stroke=black arcs-join dash[1 0.5 0.5]@0}"})
+		d.fams = append(d.fams, "dashes", "stroke-unsupported")
+	case 5: // stroke only, EvenOdd fill rule
+		st := canvas.DefaultStyle
+		st.Fill = canvas.Paint{}
+		st.Stroke = canvas.Paint{Color: canvas.Black}
+		st.FillRule = canvas.EvenOdd
+		pg.items = append(pg.items, item{kind: "path", path: rect, style: st, m: canvas.Identity, desc: "path{rect fill=none stroke=black evenodd}"})
+	}
+	d.pages = []page{pg}
+	return d
+}
+
 func genDoc(r *rng.R) *doc {
 	d := &doc{compress: r.P(1, 3), subset: r.P(2, 3), lossy: r.P(1, 6)}
 	np := 1
@@ -628,6 +680,7 @@ func main() {
 	only := flag.Int("only", -1, "")
 	repo := flag.String("repo", "/repo", "repository root (for resources/)")
 	dump := flag.String("dump", "", "write the PDF of case -only to this file")
+	nodirected := flag.Bool("nodirected", false, "no directed documents at the first indexes")
 	flag.Parse()
 	loadFonts(*repo)
 	o := out.New()
@@ -638,7 +691,12 @@ func main() {
 			continue
 		}
 		r := root.Fork(uint64(i))
-		d := genDoc(r)
+		var d *doc
+		if i < nDirected && !*nodirected {
+			d = directed(i)
+		} else {
+			d = genDoc(r)
+		}
 		hist, skel := predict(d)
 		b, pmsg := render(d)
 		if *dump != "" {
@@ -688,7 +746,9 @@ func main() {
 		}
 		term := fmt.Sprintf("mkCase13 %s %s %s %s %s %s %s", bs(pmsg != ""), bs(tokErr != ""), bs(d.subset), pdftok.List(hist), pdftok.List(skel), pdftok.List(meta), fileTerm)
 		fam := fmt.Sprintf("pages%d", len(d.pages))
-		if len(d.pages) > 3 {
+		if i < nDirected && !*nodirected {
+			fam = "directed"
+		} else if len(d.pages) > 3 {
 			fam = "pages4-6"
 		}
 		if d.compress {
